@@ -1,4 +1,5 @@
 import AcraModel.Envelope.Detector
+import AcraModel.Envelope.ContainerLemmas
 /-!
 # C01 — protect-then-reveal returns the original bytes for the owning client
 
@@ -26,5 +27,29 @@ theorem fact_layout_tags :
     structTag = List.replicate 8 34 ∧ blockTag = List.replicate 4 34 ∧ containerTag = List.replicate 3 37 ∧
     idBlock = 240 ∧ idStruct = 241 ∧ Layout.blockKeyBackends = [0] ∧ Layout.blockDataBackends = [0] ∧
     Layout.blockKeyEncryptionBackendTypeSecureCell = 0 ∧ Layout.blockDataEncryptionBackendTypeSecureCell = 0 := by decide
+
+/-! ## the serialized container -/
+
+/-- Container round trip. Wrapping a non-empty envelope `e` of a registered kind into the serialized
+container `%%% | length | id | e` succeeds, `deserialize` gives back exactly `e` and the id – also when
+arbitrary bytes follow the container (it takes exactly the declared length) – and
+`ExtractSerializedContainer` on the container followed by arbitrary bytes reports exactly the
+container's length as the number of bytes to consume (the container handed to the callbacks is the
+whole rest of the buffer, as in the code). `e.length + 12 < 2^63` keeps the Go `int` conversion of the
+length field positive. -/
+theorem container_roundtrip (e : Bytes) (id : UInt8) (he : e ≠ []) (hlen : e.length + 12 < 2^63)
+    (hid : id = idBlock ∨ id = idStruct) :
+    ∃ p, serialize e id = .ok p ∧ deserialize p = .ok (e, id) ∧ p.length = e.length + 12 ∧
+      (∀ suffix, deserialize (p ++ suffix) = .ok (e, id)) ∧
+      (∀ suffix, extractContainer (p ++ suffix) = .ok ((p.length : Int), p ++ suffix)) := by
+  obtain ⟨k, hk⟩ := c01_kindOfId_some hid
+  refine ⟨serBytes e id, c01_serialize_eq id he, ?_, ?_, ?_, ?_⟩
+  · have := c01_deserialize_ser [] he hk (by omega)
+    simpa using this
+  · rw [c01_serBytes_length]; omega
+  · intro suffix
+    exact c01_deserialize_ser suffix he hk (by omega)
+  · intro suffix
+    exact c01_extractContainer_ser suffix he hk hlen
 
 end AcraModel.Props.C01
